@@ -464,4 +464,35 @@ Section KCirc.
     rewrite (uM_all_ex ops (circuit_unitary c ops Hops) (kbasis n j) (fun _ => eq_refl)), (scale_one R rO rI radd rmul rsub ropp Rth), Hq.
     unfold KrausSem.kfinal. cbn [kk kbasis]. rewrite (scale_one R rO rI radd rmul rsub ropp Rth). reflexivity.
   Qed.
+
+  (* ---- MPP is, literally, a circuit of instructions the composition theorem covers: the ancilla-based parity measurement
+          (reset aux, H, one controlled Pauli per factor with the ancilla as control, H, measure aux) ---- *)
+  Definition mpp_circuit (aux : nat) (ps : list (pauli * nat)) (inv : bool) : list cinstr :=
+    [CR "r" aux; CG (GA1 "H" aux)]
+    ++ map (fun pq : pauli * nat => CG (GA2 (match fst pq with PX => "CX" | PY => "CY" | PZ => "CZ" end) aux (snd pq))) ps
+    ++ [CG (GA1 "H" aux); CM "m" inv aux].
+  Lemma ccircuit_ops_app c1 : forall c2 o1 o2, ccircuit_ops c1 = Some o1 -> ccircuit_ops c2 = Some o2 -> ccircuit_ops (c1 ++ c2) = Some (o1 ++ o2).
+  Proof.
+    induction c1 as [|i r IH]; intros c2 o1 o2 H1 H2; cbn [ccircuit_ops app] in *.
+    - injection H1 as <-. exact H2.
+    - destruct (cinstr_ops i) as [o|]; [|discriminate]. destruct (ccircuit_ops r) as [o'|] eqn:Hr; [|discriminate]. injection H1 as <-.
+      rewrite (IH c2 o' o2 eq_refl H2), app_assoc. reflexivity.
+  Qed.
+  Theorem mpp_is_circuit aux ps inv : forallb (fun pq : pauli * nat => negb (Nat.eqb aux (snd pq))) ps = true ->
+    ccircuit_ops (mpp_circuit aux ps inv) = Some (g_mpp aux ps inv qz).
+  Proof.
+    intro Hd. unfold mpp_circuit, g_mpp.
+    assert (Hmid : ccircuit_ops (map (fun pq : pauli * nat => CG (GA2 (match fst pq with PX => "CX" | PY => "CY" | PZ => "CZ" end) aux (snd pq))) ps)
+                   = Some (flat_map (fun pq : pauli * nat => let pauli_type := fst pq in let qubit := snd pq in
+                        match pauli_type with PX => g_cnot aux qubit None | PY => g_cy aux qubit None | PZ => g_cz aux qubit None end) ps)).
+    { induction ps as [|[P q] ps IH]; [reflexivity|]. cbn [forallb snd] in Hd. apply andb_true_iff in Hd. destruct Hd as [Hq Hr].
+      apply negb_true_iff in Hq. cbn [map flat_map fst snd ccircuit_ops]. rewrite (IH Hr).
+      assert (Hg : cinstr_ops (CG (GA2 (match P with PX => "CX" | PY => "CY" | PZ => "CZ" end) aux q))
+                   = Some (match P with PX => g_cnot aux q None | PY => g_cy aux q None | PZ => g_cz aux q None end))
+        by (destruct P; cbn [cinstr_ops gapp_ops]; rewrite Hq; vm_compute; reflexivity).
+      rewrite Hg. reflexivity. }
+    assert (H1 : ccircuit_ops [CR "r" aux; CG (GA1 "H" aux)] = Some (g_r aux ++ [OH aux])) by (vm_compute; reflexivity).
+    assert (H3 : ccircuit_ops [CG (GA1 "H" aux); CM "m" inv aux] = Some ([OH aux] ++ g_m aux qz inv)) by (destruct inv; vm_compute; reflexivity).
+    rewrite (ccircuit_ops_app _ _ _ _ H1 (ccircuit_ops_app _ _ _ _ Hmid H3)). rewrite <- !app_assoc. reflexivity.
+  Qed.
 End KCirc.
